@@ -639,7 +639,7 @@ func c19Scenarios(tier string) []Scenario {
 func init() {
 	register(&Property{ID: "C19", Level: "model_checking",
 		Technique: "stateless model checking under the controlled scheduler with an own vector-clock happens-before race monitor evaluated on every explored schedule (memory accesses instrumented by vinst -hb)",
-		Rule:      "workloads inside the property's precondition: one client shared by 2-3 goroutines each working on its own file against Ufs (walks from the shared root fid, open/read/write/stat/clunk); the server framework with pipelined requests on distinct fids right after Tversion, a parked request flushed while others run, a second connection opened, used and dropped while the first stays busy; the client against a scripted peer; Ufs exporting a path through a symbolic link with two connections attaching at the same time; Ufs at msize 64/96 with three pipelined Twrites on distinct fids followed by 8 x msize of walks from the shared root fid to fresh fids, delivered one frame per read (the buffer runs out on a frame boundary) or in 33-byte pieces; every schedule with at most D deviations from the default scheduler (quick 1, thorough 2). The monitor mirrors the race detector's edges (mutex, channel incl. capacity edge, go, WaitGroup, atomics, the standard library's global I/O synchronisation). distinct = distinct per-object operation orders",
+		Rule:      "workloads inside the property's precondition: one client shared by 2-3 goroutines each working on its own file against Ufs (walks from the shared root fid, open/read/write/stat/clunk); the server framework with pipelined requests on distinct fids right after Tversion, a parked request flushed while others run, a second connection opened, used and dropped while the first stays busy; the client against a scripted peer; Ufs exporting a path through a symbolic link with two connections attaching at the same time; Ufs at msize 64/96 with three pipelined Twrites on distinct fids followed by 8 x msize of walks from the shared root fid to fresh fids, delivered one frame per read (the buffer runs out on a frame boundary) or in 33-byte pieces; every schedule with at most D deviations from the default scheduler (quick 1, thorough 2). The monitor mirrors the race detector's edges (mutex, channel incl. capacity edge, go, WaitGroup, atomics, the standard library's global I/O synchronisation). distinct = distinct per-object operation orders ; walks sharing a fid whose object the host replaced by another kind; callers of one client passing the same Dir / name slice / buffer",
 		Assumptions: []string{"sequential consistency; accesses by name to local variables are not tracked; the scripted implementation and the harness are not instrumented", "a race is reported once per unordered pair of source positions"},
 		Scenarios:   c19Scenarios, QuickS: 110, ThoroughS: 1500})
 }
